@@ -98,14 +98,20 @@ Proof.
   rewrite !andb_true_iff, !Z.eqb_eq. intros [[-> ->] ->]. reflexivity.
 Qed.
 
-(* every valid date of years 0..399 survives days_from_civil ; civil_from_days *)
-Definition check_ymd (y : Z) : bool :=
-  forall_range (fun m =>
-    forall_range (fun d =>
-      negb (valid_date y m d) || triple_eqb (civil_from_days (days_from_civil y m d)) (y, m, d)) 1 31) 1 12.
+Lemma negb_orb_elim (a c : bool) : negb a || c = true -> a = true -> c = true.
+Proof. destruct a; cbn; [auto|discriminate]. Qed.
 
-Lemma check_era_ymd : forall_range check_ymd 0 400 = true.
-Proof. vm_compute. reflexivity. Qed.
+(* every valid date of years 0..399 survives days_from_civil ; civil_from_days *)
+Definition check_date (y m d : Z) : bool :=
+  negb (valid_date y m d) || triple_eqb (civil_from_days (days_from_civil y m d)) (y, m, d).
+
+Lemma check_date_elim y m d : check_date y m d = true -> valid_date y m d = true ->
+  civil_from_days (days_from_civil y m d) = (y, m, d).
+Proof. unfold check_date. intros H Hv. apply triple_eqb_eq. exact (negb_orb_elim _ _ H Hv). Qed.
+
+Lemma check_era_ymd :
+  forall_range (fun y => forall_range (fun m => forall_range (fun d => check_date y m d) 1 31) 1 12) 0 400 = true.
+Proof. vm_cast_no_check (eq_refl true). Qed.
 
 (* every day of the era starting 0000-03-01 (z' = z + 719468 in [0, 146097)) *)
 Definition check_day (z' : Z) : bool :=
@@ -115,7 +121,7 @@ Definition check_day (z' : Z) : bool :=
   && ((z' <? 306) || (1 <=? y)) && ((146036 <? z') || (y <=? 399)).
 
 Lemma check_era_days : forall_range2 check_day 0 400 366 = true.
-Proof. vm_compute. reflexivity. Qed.
+Proof. vm_cast_no_check (eq_refl true). Qed.
 
 Lemma era_day_facts z' : 0 <= z' < 146097 ->
   let '(y, m, d) := civil_from_days (z' - 719468) in
@@ -142,18 +148,17 @@ Proof.
   set (k := y / 400). set (y0 := y mod 400).
   assert (Hy : y = y0 + 400 * k) by (unfold y0, k; pose proof (Z.div_mod y 400 ltac:(lia)); lia).
   assert (Hy0 : 0 <= y0 < 400) by (apply Z.mod_pos_bound; lia).
-  rewrite Hy in Hv |- *. rewrite valid_date_period in Hv.
+  clearbody k y0. subst y. rewrite valid_date_period in Hv.
   rewrite days_from_civil_period, civil_from_days_period.
   assert (Hm : 1 <= m <= 12 /\ 1 <= d <= 31).
   { unfold valid_date in Hv. rewrite !andb_true_iff, !Z.leb_le in Hv.
     unfold days_in_month in Hv.
     destruct (m =? 2); [destruct (is_leap y0); lia|].
     destruct ((m =? 4) || (m =? 6) || (m =? 9) || (m =? 11)); lia. }
-  pose proof (forall_range_spec _ _ _ check_era_ymd y0 ltac:(cbn; lia)) as Hc.
-  unfold check_ymd in Hc.
+  pose proof (forall_range_spec _ _ _ check_era_ymd y0 ltac:(cbn; lia)) as Hc. cbv beta in Hc.
   pose proof (forall_range_spec _ _ _ Hc m ltac:(cbn; lia)) as Hc2. cbv beta in Hc2.
   pose proof (forall_range_spec _ _ _ Hc2 d ltac:(cbn; lia)) as Hc3. cbv beta in Hc3.
-  rewrite Hv in Hc3. cbn [negb orb] in Hc3. apply triple_eqb_eq in Hc3. rewrite Hc3. reflexivity.
+  rewrite (check_date_elim _ _ _ Hc3 Hv). reflexivity.
 Qed.
 
 (* decomposition of an arbitrary day number into era and day of era *)
@@ -169,7 +174,9 @@ Proof.
   { unfold z', k. pose proof (Z.div_mod (z + 719468) 146097 ltac:(lia)). lia. }
   assert (Hz' : 0 <= z' < 146097) by (apply Z.mod_pos_bound; lia).
   pose proof (era_day_facts z' Hz') as H.
-  rewrite Hz at 1. rewrite civil_from_days_period.
+  clearbody k z'.
+  replace (civil_from_days z) with (civil_from_days (z' - 719468 + 146097 * k)) by (rewrite <- Hz; reflexivity).
+  rewrite civil_from_days_period.
   destruct (civil_from_days (z' - 719468)) as [[y m] d].
   destruct H as [H1 [H2 [H3 [H4 H5]]]].
   rewrite valid_date_period, days_from_civil_period.
